@@ -1,7 +1,9 @@
 //! vcheck — model-checking harness for bytebeamio/rumqtt (see /verif/DESIGN.md).
+mod e1;
 mod e4_topicgrid;
 mod e5_commitlog;
 mod vcore;
+mod wire;
 
 use vcore::Tier;
 
@@ -30,6 +32,7 @@ fn main() {
             _ => usage(),
         };
         match args[1].as_str() {
+            "C01" => e1::run::run("C01", tier),
             "C12" => e4_topicgrid::run(tier),
             "C13" => e5_commitlog::run(tier),
             _ => usage(),
@@ -54,6 +57,7 @@ fn replay(path: &str) -> i32 {
     println!("recorded detail: {}", doc["detail"]);
     let r = &doc["replay"];
     match r["engine"].as_str().unwrap_or("") {
+        "e1_router" => e1::run::replay(r),
         "e4_topicgrid" => e4_topicgrid::replay(r),
         "e5_commitlog" => e5_commitlog::replay(r),
         other => vcore::machinery_error(&format!("unknown engine {other}")),
